@@ -942,7 +942,8 @@ class ProcessSyncGroup(SyncGroup, SimulatedEBPF):
             loop.add_reader(fd, future.set_result, None)
             try:
                 await future
-            except CancelledError as error:
+            except CancelledError as e:
+                error = e  # names bound by except are deleted afterwards
                 self.runningValue.value = False
             else:
                 if error is None:
